@@ -25,7 +25,7 @@ SCALE = 1024          # coefficient tokens handed to the Lean model: coef * SCAL
 SEG_LETTERS = set('CLOVFGJSbrkKxd')
 INV_OPC = {v: k for k, v in nlgen.OPC.items()}
 VARIADIC = ('sum', 'min', 'max')
-N_THEOREMS = 11
+N_THEOREMS = 12
 
 
 # ----------------------------------------------------------------------------- generator
@@ -788,7 +788,7 @@ def run(ck):
     shutil.rmtree(wdir, ignore_errors=True)
     os.makedirs(wdir, exist_ok=True)
     rng = nlgen.Rng(ck.seed * 1000003 + (17 if ck.tier == 'quick' else 29))
-    nfiles = 34 if ck.tier == 'quick' else 260
+    nfiles = 80 if ck.tier == 'quick' else 800
     maxobj = 4 if ck.tier == 'quick' else 6
     stats = {'outcome': {}, 'objkind': {}, 'auxcon': {}, 'cmp': 0, 'nobj_hist': {}, 'mutation': {}, 'format': {'text': 0, 'binary': 0},
              'k_class': {}, 'multi': {}, 'reduced_runs': 0, 'text_vs_binary_runs': 0, 'expr_ops': {}}
